@@ -26,7 +26,7 @@ META = {
 }
 META["claim"] += " " + "Also: the repository's tests re-run with a contract on parse_url."
 
-SCHEMES = ["ws", "wss", "http", "https", "", None, "wsx", "ftp"]  # None = no colon at all
+SCHEMES = ["ws", "wss", "http", "https", "", None, "wsx", "ftp", "WSS", "Wss", "WS"]  # None = no colon at all
 HOSTS = ["example.test", "EXAMPLE.Test", "10.1.2.3", "[2001:db8::1]", "[::1]", "user:pw@auth.test", "", "a-b.c_d.test"]
 PORTS = [None, "1", "80", "443", "8080", "65535", "65536", "0", "abc", ""]
 PATHS = ["", "/", "/a/b", "/a;p=1", "/%7E", "/a;p=1/b;q", "/x/"]
@@ -70,7 +70,7 @@ def run(res, tier, seed, shard, nshards):
         k = 0
         for n in range(1, 5):
             for lst in itertools.product(outcomes, repeat=n):
-                for setting in range(2 if tier == "quick" else 3):
+                for setting in range(3):
                     k += 1
                     if k % nshards != shard:
                         continue
@@ -114,6 +114,16 @@ def url_case(res, W, url, full):
     else:
         res.count("urls_unjudged")
         res.count("urls_unjudged:" + exp)
+        if exp == "scheme letter case" and kind == "ret":
+            # whether WS:// / Wss:// are accepted is not specified; if they are, they mean what the lower-case scheme means
+            host, port, resource, secure = got
+            low = url.split(":", 1)[0].lower()
+            try:
+                e2 = RU.parse(low + ":" + url.split(":", 1)[1])
+            except (RU.Refused, RU.Unjudged):
+                e2 = None
+            if e2 is not None and (bool(secure) != e2[3] or port != e2[1]):
+                res.violation("url-target", f"{url}: accepted as {got!r}, but the scheme read case-insensitively means port {e2[1]} secure={e2[3]}", case, component="scheme-case")
     if not full:
         return
     # the same through connect(): network activity and what the network saw
@@ -164,6 +174,9 @@ def addr_case(res, W, rng, lst, setting):
     ips = [f"198.51.100.{i + 1}" for i in range(len(lst))]
     if setting == 2:
         ips = [f"2001:db8::{i + 1}" for i in range(len(lst))]
+    if setting == 1:
+        # dual-stack answer: IPv6 and IPv4 addresses alternate, IPv6 first (the usual resolver ordering)
+        ips = [(f"2001:db8::{i + 1}" if i % 2 == 0 else f"198.51.100.{i + 1}") for i in range(len(lst))]
     net_.add_host("multi.test", ips)
     errs = {}
     for ip, o in zip(ips, lst):
@@ -179,6 +192,9 @@ def addr_case(res, W, rng, lst, setting):
     user_opts = [] if setting == 0 else [(_socket.SOL_SOCKET, _socket.SO_RCVBUF, 4096 + setting)]
     timeout = [3, 7.5, None][setting]
     via = ["create_connection", "default-timeout", "connect"][(len(lst) + sum(map(len, lst)) + setting) % 3]
+    # somebody else in the process has set the interpreter-wide socket default: the library's own setting must still be applied
+    foreign = 0.25 if (len(lst) + setting) % 2 == 0 else None
+    _socket.setdefaulttimeout(foreign)
     try:
         if via == "create_connection":
             w = W.create_connection("ws://multi.test:8080/", timeout=timeout, sockopt=user_opts)
@@ -194,7 +210,10 @@ def addr_case(res, W, rng, lst, setting):
         kind, exc, w = "exc", e, None
     finally:
         W.setdefaulttimeout(None)
+        _socket.setdefaulttimeout(None)
     res.count("via:" + via)
+    if foreign is not None:
+        res.count("with_foreign_stdlib_default_timeout")
     res.count("address_lists")
     res.case(("addr", lst, setting), nontrivial=len(lst) >= 2)
     case = {"outcomes": lst, "setting": setting}
@@ -231,8 +250,10 @@ def addr_case(res, W, rng, lst, setting):
         bad("socket-count", f"{len(socks)} sockets for {len(attempts)} attempts")
     default = [tuple(o) for o in W._socket.DEFAULT_SOCKET_OPTION]
     for i, s in enumerate(socks):
-        if timeout not in s.timeouts_set or (s.timeouts_set and s.timeouts_set[-1] != timeout):
-            bad("timeout-not-applied", f"socket {i} timeouts {s.timeouts_set}, configured {timeout}")
+        if s.gettimeout() != timeout and not (i == len(socks) - 1 and exp_result[0] == "connected"):
+            bad("timeout-not-applied", f"socket {i} has timeout {s.gettimeout()!r} (set calls {s.timeouts_set}), configured {timeout!r}", foreign_default=repr(foreign))
+        elif i == len(socks) - 1 and exp_result[0] == "connected" and s.gettimeout() != timeout:
+            bad("timeout-not-applied", f"connected socket has timeout {s.gettimeout()!r} (set calls {s.timeouts_set}), configured {timeout!r}", foreign_default=repr(foreign))
         for o in default + [tuple(o) for o in user_opts]:
             if o not in s.opts:
                 bad("sockopt-not-applied", f"socket {i} lacks option {o}; has {s.opts}", which="user" if o in [tuple(x) for x in user_opts] else "default")
